@@ -143,6 +143,15 @@ func TestSemantics(t *testing.T) {
 		t.Fatalf("list: %+v %v", l, err)
 	}
 
+	// delete preconditions are checked as the API server checks them
+	staleRV := "1"
+	if err := revs.Delete(ctx, "r1", metav1.DeleteOptions{Preconditions: &metav1.Preconditions{ResourceVersion: &staleRV}}); !apierrors.IsConflict(err) || c.Rev("ns", "r1") == nil {
+		t.Fatalf("delete with a stale resourceVersion precondition: %v", err)
+	}
+	curRV := c.Rev("ns", "r1").ResourceVersion
+	if err := revs.Delete(ctx, "r1", metav1.DeleteOptions{Preconditions: &metav1.Preconditions{ResourceVersion: &curRV}}); err != nil || c.Rev("ns", "r1") != nil {
+		t.Fatalf("delete with a matching precondition: %v", err)
+	}
 	// events are accepted and never logged
 	c.Log = nil
 	c.logging = true
